@@ -43,7 +43,7 @@ RULE = (
     "from the grids in describe() through plan_patterns.spiral and spiral_fermat; spiral_square_pattern for every x_num,y_num in "
     "2..9 (2..16 thorough) x centres x ranges. Oracle: tilt=0 -> every point within the axis-parallel rectangle |x-xc|<=x_range/2, "
     "|y-yc|<=y_range/2 (1e-9); tilt!=0 -> |y-yc|<=y_range/2 and |x-xc|<=x_range/2+(y_range/2)|tan tilt|*max(1,dr/dr_y) "
-    "(weakest envelope of a 'tilted rectangle'); square spiral: points map one-to-one onto the x_num*y_num grid spanning the ranges. "
+    "(weakest envelope of a 'tilted rectangle'); pairs spiral/spiral_fermat with the same tilted request and dr_y != dr: some shear convention (real or ring-normalised y, either sign) must contain every point of BOTH patterns (one requested rectangle); square spiral: points map one-to-one onto the x_num*y_num grid spanning the ranges. "
     "Non-trivial spiral case = >=4 points and at least one in the outer half of the rectangle (|dx|>x_range/4 or |dy|>y_range/4); "
     "non-trivial square case = more than one ring (max(x_num,y_num)>=3)."
 )
@@ -73,6 +73,18 @@ def _spiral_cases(tier):
     return out
 
 
+def _pair_cases(tier):
+    """spiral and spiral_fermat with the SAME rectangle request (tilted, dr_y != dr): one requested rectangle, so one region."""
+    g = GRIDS[tier]
+    out = []
+    for xc, yc, xr, yr, dr, dyf, tilt in itertools.product(g["centres"], g["centres"][:1], g["ranges"], g["ranges"], g["dr"], g["dr_y_factor"], g["tilt"]):
+        if dyf is None or dyf == 1.0 or tilt == 0.0:
+            continue
+        for nth, factor in zip(g["nth"][-2:], g["factor"][-2:]):
+            out.append(("pair", xc, yc, xr, yr, dr, dyf, nth, factor, tilt))
+    return out
+
+
 def _square_cases(tier):
     g = GRIDS[tier]
     out = []
@@ -84,7 +96,7 @@ def _square_cases(tier):
 
 
 def items(tier, seed):
-    cases = _spiral_cases(tier) + _square_cases(tier)
+    cases = _spiral_cases(tier) + _pair_cases(tier) + _square_cases(tier)
     size = 120 if tier == "quick" else 400
     return [{"cases": cases[i : i + size]} for i in range(0, len(cases), size)]
 
@@ -166,6 +178,43 @@ def run_case(case):
         n = len(pts)
         bucket = "0" if n == 0 else ("1-9" if n < 10 else ("10-99" if n < 100 else "100+"))
         return vs, {"nontrivial": n >= 4 and outer, "outcome": f"{fn}:n={bucket}:dr_y={_dry_class(dyf)}:{'tilt' if tilt else 'flat'}", "npoints": n}
+    if fn == "pair":
+        _, xc, yc, xr, yr, dr, dyf, nth, factor, tilt = case
+        dr_y = dyf * dr
+        try:
+            a = _points(pp.spiral(XM, YM, xc, yc, xr, yr, dr, nth, dr_y=dr_y, tilt=tilt))
+            b = _points(pp.spiral_fermat(XM, YM, xc, yc, xr, yr, dr, factor, dr_y=dr_y, tilt=tilt))
+        except Exception as e:  # noqa: BLE001 - no point produced by one of them: nothing to compare
+            return [], {"nontrivial": False, "outcome": f"pair:raises-{type(e).__name__}", "npoints": 0}
+        hx = xr / 2.0
+        t = math.tan(tilt)
+        # the shear convention of the 'tilted rectangle' is a don't-care (real y or ring-normalised y, either sign), but
+        # it is ONE rectangle: some convention must contain every point of BOTH patterns
+        family = [(name, k) for name, k in (("ring-y", 1.0 / dyf), ("real-y", 1.0), ("ring-y-neg", -1.0 / dyf), ("real-y-neg", -1.0))]
+        fits = {}
+        for name, k in family:
+            fits[name] = (
+                all(abs((x - xc) + k * (y - yc) * t) <= hx + TOL for x, y in a),
+                all(abs((x - xc) + k * (y - yc) * t) <= hx + TOL for x, y in b),
+            )
+        common = [n_ for n_, (fa, fb) in fits.items() if fa and fb]
+        only_a = [n_ for n_, (fa, fb) in fits.items() if fa]
+        only_b = [n_ for n_, (fa, fb) in fits.items() if fb]
+        if not common:
+            vs.append(
+                {
+                    "rule": "patterns-disagree-on-tilted-rectangle",
+                    "detail": (
+                        f"x_start={xc}, y_start={yc}, x_range={xr}, y_range={yr}, dr={dr}, dr_y={dr_y}, tilt={tilt}: spiral(nth={nth}) fits the sheared rectangle "
+                        f"conventions {only_a or 'none'}, spiral_fermat(factor={factor}) fits {only_b or 'none'}; no convention contains both"
+                    ),
+                    "signature": f"patterns-disagree-on-tilted-rectangle|dr_y={_dry_class(dyf)}|spiral={'+'.join(only_a) or 'none'}|fermat={'+'.join(only_b) or 'none'}",
+                    "case": list(case),
+                }
+            )
+        # non-trivial = the two conventions are distinguishable on this data (some point of a or b falls outside one of them)
+        disc = any(not (fa and fb) for fa, fb in fits.values())
+        return vs, {"nontrivial": disc and len(a) >= 4 and len(b) >= 4, "outcome": f"pair:dr_y={_dry_class(dyf)}:common={len(common)}", "npoints": len(a) + len(b)}
     # square spiral
     _, xc, yc, xr, yr, xn, yn = case
     pts = _points(pp.spiral_square_pattern(XM, YM, xc, yc, xr, yr, xn, yn))
